@@ -180,6 +180,37 @@ def pairs(ctx, n):
         yield case, cfg
 
 
+def neartie_pairs(ctx, n):
+    """prices per unit of utility that are close (1e-7 .. 1e-32 apart) but not equal, and huge magnitudes: the common rho of a round
+    is an exact number, a tie between projects is an exact equality"""
+    rng = ctx.rng
+    for _ in range(n):
+        case = core.gen_neartie_election(rng) if rng.random() < 0.7 else core.gen_huge_election(rng)
+        cfg = rulegen.gen_rule_cfg(rng, case, rules=("mes",), allow_refuse=False)
+        cfg["res"] = True
+        cfg["analytics"] = True
+        if rng.random() < 0.2 and max(case.cost.values()) <= 100:
+            cfg["inc"] = F(rng.choice([1, F(1, 2)]))  # (the iterated rule adds `inc` per voter and round: only where costs are small)
+        ctx.count("stream", "near-tied prices")
+        yield case, cfg
+
+
+def negscore_pairs(ctx, n):
+    """cardinal / cumulative ballots with negative and zero scores (only voters with positive utility are supporters and pay)"""
+    from . import C04
+
+    rng = ctx.rng
+    for _ in range(n):
+        case = C04.gen_negscore_election(rng, 5)
+        cfg = rulegen.gen_rule_cfg(rng, case, rules=("mes",), allow_refuse=False)
+        cfg["res"] = True
+        cfg["analytics"] = True
+        if rng.random() < 0.3:
+            cfg["inc"] = F(rng.choice([1, F(1, 2), F(1, 3)]))
+        ctx.count("stream", "negative-and-zero-scores")
+        yield case, cfg
+
+
 def run_one(case, cfg):
     built = rules.Built(case, multi=cfg.get("multi", False))
     try:
@@ -195,7 +226,9 @@ def run(ctx, n=None, compare=True):
     ctx.rule = RULE
     n = n or ctx.scale(1500, 12000)
     lines, info = [], []
-    for case, cfg in pairs(ctx, n):
+    import itertools
+
+    for case, cfg in itertools.chain(pairs(ctx, n), neartie_pairs(ctx, max(1, n // 5)), negscore_pairs(ctx, max(1, n // 5))):
         if ctx.budget_s is not None and ctx.elapsed() > ctx.budget_s:
             break
         built, out, vs, st = run_one(case, cfg)
